@@ -24,6 +24,7 @@ class C07(runner.Check):
 	prop_id = "C07"
 	level = "fault_enumeration"
 	hang_s = 300
+	isolate_cases = True      # module-level state of the code under test must not leak between cases
 	rule = ("Leg 'enum': one evaluation = one generated (model architecture, API op) "
 		"pair for which EVERY crash point is enumerated: each seam in {model forward, "
 		"autograd backward, reference generator, custom non-linearity rule, func, "
@@ -293,7 +294,7 @@ class C07(runner.Check):
 		case = copy.deepcopy(case)
 		if case["leg"] == "enum":
 			# reduce to the single crash point that violates
-			out = self.run_case(case)
+			out = runner.run_one(self, case)
 			for v in out.violations:
 				if v.klass == klass and v.signature.get("key") == key:
 					single = dict(case, leg="single", fault=v.signature.get("fault"),
